@@ -74,9 +74,12 @@ class PrinterTransactionContext(AbstractPrinter):  # pylint: disable=too-few-pub
 
         filename = dest / filename
         function = list(self.teal.functions.values())[0]
+        # the function analyses its own copies of the main CFG blocks: map the blocks of the contract to them
+        function_blocks = {bi.idx: bi for bi in function.blocks}
 
         def get_info(bb: "BasicBlock") -> List[str]:
             # NOTE: use the first function for now as `init_tealer_from_single_contract` uses entire contract as single function.
+            bb = function_blocks.get(bb.idx, bb)
             group_indices_str = self._repr_num_list(function.transaction_context(bb).group_indices)
             group_sizes_str = self._repr_num_list(function.transaction_context(bb).group_sizes)
             return [f"GroupIndex: {group_indices_str}", f"GroupSize: {group_sizes_str}"]
